@@ -34,6 +34,10 @@ func escrowOf(ff *core.FuncFacts, v ssa.Value) (ssa.Value, bool) {
 		if len(ids) == 1 && strings.HasSuffix(ids[0].Path, ".OrderId") {
 			return ids[0].Val, true
 		}
+		// the id the order was just stored under (create path)
+		if len(ids) == 1 && ids[0].Kind == "call" && strings.Contains(ids[0].Name, "Keeper.AppendPending") {
+			return ids[0].Val, true
+		}
 	}
 	return nil, false
 }
@@ -198,7 +202,18 @@ func checkC20(P *core.Program, R *core.Report) {
 		for _, c := range core.Calls(fn) {
 			k := P.CalleeKey(c.Common())
 			if !strings.HasPrefix(k, "x/tradeshield/keeper.Keeper.Execute") {
-				continue
+				// a dispatch through a table of executors counts once per executor it can reach
+				n := 0
+				for _, t := range P.Callees(c) {
+					if strings.HasPrefix(P.Key(t), "x/tradeshield/keeper.Keeper.Execute") {
+						n++
+					}
+				}
+				if n == 0 {
+					continue
+				}
+				ni += n - 1
+				k = fmt.Sprintf("dispatch to %d executors", n)
 			}
 			ni++
 			ok, why := isolatedCallPhi(P, ff, c)
